@@ -9,8 +9,10 @@ import itertools
 ID = "C17"
 LEVEL = "exploration"
 RULE = ("exhaustive: (start, stop) in {None,-7..7}^2, step in {None,1..4}, every flow "
-        "0..10 (one case = one argument triple x 11 flows, in 1-, 2- and 3-argument "
-        "form where expressible); fill_into for all non-negative triples; invalid steps; "
+        "0..10 (thorough: -11..11, steps up to 9, flows 0..18; one case = one argument triple "
+        "x all flow lengths, in 1-, 2- and 3-argument form where expressible); fill_into for "
+        "all non-negative triples; a table of large indices (250..1023, negative -1..-1000) on "
+        "flows of 0..1030 values built from run-time int objects; invalid steps; "
         "Reverse/Chain/CountFrom/RunningChunkBy tables. Non-trivial: the reference "
         "result is non-empty for at least one flow (or the case is a rejection case)")
 ASSUMPTIONS = ["flows are finite lists of distinct ints",
@@ -30,13 +32,15 @@ MIN_NONTRIVIAL = {"quick": 1000, "thorough": 1000}
 
 IDX = [None] + list(range(-7, 8))
 STEPS = [None, 1, 2, 3, 4]
-NMAX = {"quick": 10, "thorough": 14}
+NMAX = {"quick": 10, "thorough": 18}
 
 
 def cases(tier, seed):
-    for a in IDX:
-        for b in IDX:
-            for c in STEPS:
+    idx = IDX if tier == "quick" else [None] + list(range(-11, 12))
+    steps = STEPS if tier == "quick" else STEPS + [5, 6, 9]
+    for a in idx:
+        for b in idx:
+            for c in steps:
                 yield {"k": "slice", "args": [a, b, c], "n": NMAX[tier]}
     nn = [None] + list(range(0, 8))
     for a in nn:
